@@ -83,6 +83,10 @@ THEOREMS = [
     "Typedpy.C18.p1Scalar_eq_deser",
     "Typedpy.C18.p1_elems_eq_deser",
     "Typedpy.C18.p1Rejects_homog_eq_deser",
+    "Typedpy.C18.p1SiteD_top",
+    "Typedpy.C18.deep_phase_one_sound",
+    "Typedpy.C18.deserInvalid_nil_ctorOnly",
+    "Typedpy.C18.two_phase_deep_example",
 ]
 RULE = ("flat classes (1..5 fields: Integer/Number/Float incl. sign variants, String, Boolean, Enum, and Array/Deque/"
         "Set/Tuple/Map over them) from the type-directed declaration generator; per class a valid argument set, then "
